@@ -1,7 +1,9 @@
 ----------------------------- MODULE Gen_Runnable -----------------------------
 (* Spec -> code: gated schedules for the real Runnable, enumerated from Runnable.tla.                     *)
 (*                                                                                                        *)
-(* The driver can hold a real thread at the entry of do(), at the entry of interruptable_sleep(), at the   *)
+(* The driver can hold a real thread at the entry of do() - twice: before its first instruction ("pre",     *)
+(* the call is not yet logged: a thread preempted between the loop's flag check and the call) and right    *)
+(* after the call was logged ("do": inside the work function) -, at the entry of interruptable_sleep(), at *)
 (* entry and at the exit of wake() (also inside stop(): "between the statements of stop() separated by its *)
 (* call to wake()"), at the entry of wait() (also inside stop()) and between controller calls.  A thread   *)
 (* that is released runs alone to its next gate, to the end of its call, to its death, or until it blocks  *)
@@ -48,7 +50,8 @@ ActorRun(a) ==
   \/ (\E r \in {"ok", "false", "exc"} : ARet(a, r)) /\ NoPark /\ Keep
   \/ a = 0 /\ ACall(0, ac[0].kind) /\ NoPark /\ Keep
 LoopRun ==
-  \/ (LBoot \/ LR1 \/ LTop1 \/ LTop2 \/ LPerform \/ LDoRet \/ LChk1 \/ LChk2 \/ LSl2w \/ LSl3
+  \/ LTop2 /\ (IF sh.shutdown THEN NoPark ELSE Park(0, "pre")) /\ Keep
+  \/ (LBoot \/ LR1 \/ LTop1 \/ LPerform \/ LDoRet \/ LChk1 \/ LChk2 \/ LSl2w \/ LSl3
       \/ LFin1 \/ LFin3 \/ LFin4 \/ LDie \/ LFinE \/ LDone \/ LExit) /\ NoPark /\ Keep
   \/ mode = "poll" /\ LSl2t /\ NoPark /\ Keep
   \/ \E o \in AllOutcomes : LDo(o) /\ Park(0, "do") /\ h' = Append(h, [k |-> "do", a |-> 0, x |-> o, pre |-> Status]) /\ UNCHANGED mode
